@@ -1,10 +1,13 @@
 /-
   C05 — property theorems: the kernels of `JaqVerif/C05/Kernels.lean` (Rust's checked semantics)
   cannot panic under exactly the guard their callers establish, for ALL inputs.
-  Where the current tree can panic the statement is `…_partial` with the guard, next to a proved
-  witness and the statement for the repaired code.
+  Both defects found in round 1 are repaired in the tree (496d12c, 5b5826b): the full statements
+  (`implodeStep_noPanic`, `lex_spans_in_bounds`) are about the current code; the `…_partial` +
+  witness theorems document the tree as found.
 -/
 import JaqVerif.Lemmas.C05
+import JaqVerif.Lemmas.C05b
+import JaqVerif.Lemmas.C05c
 
 namespace Jaq.C05
 
@@ -70,31 +73,38 @@ theorem spliceSpec_length (b r : List UInt8) (skip take : Nat) (h : skip + take 
 
 /-! ### `implode` / `explode` -/
 
-/-- CURRENT tree: `u8::try_from(-i)` is safe for every `isize` except `isize::MIN` -/
-theorem implodeStep_noPanic_partial (i : Int) (h : i ≠ IMIN) : implodeStep i ≠ .error .panic :=
-  L.implodeStep_noPanic_partial i h
+/-- CURRENT tree (496d12c, `i.checked_neg().and_then(|n| u8::try_from(n).ok())`): the body of
+`implode`'s loop cannot panic for ANY `isize` (full statement; in round 1 this was
+`implodeStepFixed_noPanic`, about the proposed repair) -/
+theorem implodeStep_noPanic (i : Int) : implodeStep i ≠ .error .panic :=
+  L.implodeStep_noPanic i
 
-/-- … and `[isize::MIN] | implode` panics ("attempt to negate with overflow") -/
-theorem implodeStep_panics_witness : implodeStep IMIN = .error .panic := by rfl
+/-- tree AS FOUND: `u8::try_from(-i)` is safe for every `isize` except `isize::MIN`
+(round 1: `implodeStep_noPanic_partial`) -/
+theorem implodeStepAsFound_noPanic_partial (i : Int) (h : i ≠ IMIN) : implodeStepAsFound i ≠ .error .panic :=
+  L.implodeStepAsFound_noPanic_partial i h
 
-/-- full statement, for the repaired body (`checked_neg`): no panic for ANY `isize` -/
-theorem implodeStepFixed_noPanic (i : Int) : implodeStepFixed i ≠ .error .panic :=
-  L.implodeStepFixed_noPanic i
+/-- … and `[isize::MIN] | implode` panicked there ("attempt to negate with overflow")
+(round 1: `implodeStep_panics_witness`) -/
+theorem implodeStepAsFound_panics_witness : implodeStepAsFound IMIN = .error .panic := by rfl
 
-/-- the repair changes nothing else -/
-theorem implodeStepFixed_agrees (i : Int) (h : i ≠ IMIN) : implodeStepFixed i = implodeStep i :=
-  L.implodeStepFixed_agrees i h
+/-- the repair changed nothing else (round 1: `implodeStepFixed_agrees`) -/
+theorem implodeStep_agrees_asFound (i : Int) (h : i ≠ IMIN) : implodeStep i = implodeStepAsFound i :=
+  L.implodeStep_agrees i h
 
 /-- `explode` never overflows on bytes and scalar values … -/
 theorem explodeItem_noPanic (x : Piece) (hb : ∀ b, x = .byte b → b ≤ 255) (hc : ∀ c, x = .char c → c ≤ 0x10FFFF) :
     explodeItem x ≠ .error .panic :=
   L.explodeItem_noPanic x hb hc
 
-/-- … and `implode` maps every item of `explode` back (non-zero bytes and non-zero scalar values;\n`0` is read back as the byte 0, which is the same UTF-8) -/
+/-- … and `implode` (current tree) maps every item of `explode` back (non-zero bytes and non-zero
+scalar values; `0` is read back as the byte 0, which is the same UTF-8) -/
 theorem implode_explode (x : Piece) (i : Int)
     (hx : (∃ b, x = .byte b ∧ 1 ≤ b ∧ b ≤ 255) ∨ (∃ c, x = .char c ∧ 1 ≤ c ∧ isScalar ((c : Int)) = true))
     (h : explodeItem x = .ok i) : implodeStep i = .ok x :=
   L.implode_explode x i hx h
+
+example : explodeItem (.char 0x20AC) = .ok 0x20AC ∧ implodeStep 0x20AC = .ok (.char 0x20AC) := ⟨by rfl, by rfl⟩
 
 /-! ### conversions -/
 
@@ -118,16 +128,18 @@ theorem space_suffix (fixed : Bool) (s t : List Char) (h : spaceAll fixed s = .s
 theorem consumedLen_noPanic (s t : List Char) (h : t <:+ s) : consumedLen s (.suffix t) ≠ .error .panic :=
   L.consumedLen_noPanic s t h
 
-/-- CURRENT tree: the span of the error reported after `space` lies inside the filter text
-*provided* `space` did not end in a comment without newline -/
+/-- tree AS FOUND (before 5b5826b): the span of the error reported after `space` lies inside the
+filter text *provided* `space` did not end in a comment without newline -/
 theorem lex_spans_in_bounds_partial (pre s t : List Char) (h : spaceAll false s = .suffix t) :
     ∃ a b, spanOf (pre ++ s) (.suffix t) = .ok (a, b) ∧ a ≤ b ∧ b ≤ (pre ++ s).length :=
   L.span_in_bounds pre s t (L.spaceAll_suffix false s t h)
 
-/-- … and it does not on `[#`: the reported "found" string is not part of the text, `load::span` panics -/
+/-- … and it did not on `[#`: the reported "found" string is not part of the text, `load::span` panics -/
 theorem lex_span_panics_witness : spanOf ['[', '#'] (spaceAll false ['#']) = .error .panic := by rfl
 
-/-- full statement, for the repaired lexer: every span reported after `space` is inside the text -/
+/-- full statement, CURRENT tree (5b5826b: `&self.i[self.i.len()..]`): for EVERY text, the string
+`space` leaves is a part of the text and the span `load::span` computes for the error reported
+after it lies inside the text -/
 theorem lex_spans_in_bounds (pre s : List Char) :
     ∃ a b, spanOf (pre ++ s) (spaceAll true s) = .ok (a, b) ∧ a ≤ b ∧ b ≤ (pre ++ s).length :=
   L.span_in_bounds_fixed pre s
@@ -150,5 +162,174 @@ theorem compile_scopes_balanced (t : Tm K) (s : Scopes K) : walk t s = .ok s := 
 /-- popping a name that is not on top fires the assertion (the model is not vacuous) -/
 theorem pop_wrong_name_panics : (((Scopes.empty (K := Nat)).push 1 |>.push 2).pop 1).toBool = false := by
   decide
+
+/-! ### compiler, round 2: the real binder structure of `Compiler::term` (`Locals`) -/
+
+/-- `pop_arg` after `push_arg`, `pop_parent` after `push_parent`, `pop_sibling` after `push_sibling`:
+every `panic!()` arm and `assert_eq!` is passed and the state is restored -/
+theorem popArg_pushArg (s : Locals K) (f : K) : (s.pushArg f).popArg f = .ok s := L.popArg_pushArg s f
+
+theorem popParent_pushParent (s : Locals K) (name : K) (args : List (DArg K)) :
+    (s.pushParent name args).popParent name args.length = .ok s := L.popParent_pushParent s name args
+
+theorem popSibling_pushSibling (s : Locals K) (name : K) (args : List (DArg K)) :
+    (s.pushSibling name args).popSibling name args.length = .ok s := L.popSibling_pushSibling s name args
+
+/-- the invariant holds initially (`Locals::default()`) -/
+theorem locals_inv_empty : (Locals.empty : Locals K).Inv := L.inv_empty
+
+/-- under the invariant, `var`/`break_` (`i - v`) and `Locals::call` (`self.vars.total - *vars`,
+`binds`' `assert!(binds.len() == args.len())`) cannot panic -/
+theorem lookupVar_noPanic (s : Locals K) (k : VKey K) (h : s.Inv) : s.lookupVar k ≠ .error .panic := by
+  obtain ⟨r, hr⟩ := L.lookupVar_ok s k h
+  rw [hr]; simp
+
+theorem call_noPanic (s : Locals K) (name : K) (arity : Nat) (h : s.Inv) : s.call name arity ≠ .error .panic := by
+  obtain ⟨r, hr⟩ := L.call_ok s name arity h
+  rw [hr]; simp
+
+/-- … and without it they do (the model is not vacuous) -/
+theorem lookupVar_needs_inv :
+    (⟨⟨fun _ => [5], 3⟩, fun _ => []⟩ : Locals Nat).lookupVar (.var 0) = .error .panic := L.lookupVar_needs_inv
+
+/-- `compile_scopes_balanced` over the REAL binder structure (patterns with keys, reduce/foreach via
+`CTm.fold`, labels, definitions with variable and filter arguments, nested and sibling definitions,
+calls and variable references): for EVERY term, from every state that satisfies the invariant,
+no `assert!`, `assert_eq!`, `panic!()` arm, `usize` subtraction or `binds` assertion of
+`Locals`/`MapVecLen` fires and `locals` is restored -/
+theorem compile_locals_balanced (t : CTm K) (s : Locals K) (h : s.Inv) : cwalk t s = .ok s :=
+  L.cwalk_balanced t s h
+
+/-- in particular `close_module`'s `assert!(self.locals.is_empty())` holds after any module / main term -/
+theorem close_module_assert (t : CTm K) : ∃ s, cwalk t (Locals.empty : Locals K) = .ok s ∧ s.isEmpty :=
+  ⟨Locals.empty, L.cwalk_balanced t _ L.inv_empty, fun _ => rfl, rfl, fun _ => rfl⟩
+
+example : cwalk (.defn 0 [(true, 1), (false, 2)] (.node (.var 1) (.call 2 0 .leaf))
+    (.call 0 2 (.node .leaf .leaf))) (Locals.empty : Locals Nat) = .ok Locals.empty :=
+  compile_locals_balanced _ _ locals_inv_empty
+
+/-! ### regex (jaq-std/src/regex.rs), round 2 -/
+
+/-- `ByteChar::char_of_byte` with the restart logic (d488b4c): from ANY iterator state, for every
+byte offset that is a character boundary of the haystack (or its length) the result is `Some` of
+its index — so `Match::new`'s `unwrap()` cannot fail, whatever the order of capture-group starts -/
+theorem matchOffset_noPanic (bounds : List Nat) (hs : bounds.Pairwise (· < ·)) (pos k off : Nat)
+    (hk : bounds[k]? = some off) : matchOffset true ⟨bounds, pos⟩ off = .ok (k, ⟨bounds, k⟩) :=
+  L.matchOffset_ok bounds hs pos k off hk
+
+/-- all captures of all matches, in any order of their starts -/
+theorem matchOffsets_noPanic (bounds : List Nat) (hs : bounds.Pairwise (· < ·)) (starts : List Nat) (pos : Nat)
+    (h : ∀ s ∈ starts, s ∈ bounds) :
+    ∃ cs, matchOffsets true ⟨bounds, pos⟩ starts = .ok cs ∧ cs.length = starts.length ∧
+      ∀ (i c : Nat), cs[i]? = some c → bounds[c]? = starts[i]? :=
+  L.matchOffsets_ok bounds hs starts pos h
+
+/-- without the restart (tree before d488b4c) a capture that starts before the previous one panics:
+`"ba" | match("(?:(a)|(b))+")` has its groups at bytes 0, 1, 0 -/
+theorem matchOffsets_needs_restart : matchOffsets false ⟨[0, 1, 2], 0⟩ [0, 1, 0] = .error .panic := by rfl
+
+example : matchOffsets true ⟨[0, 1, 2], 0⟩ [0, 1, 0] = .ok [0, 1, 0] := by rfl
+
+/-- the mismatch slices `&s[last_byte..whole.start()]`, `&s[last_byte..]` are in bounds when the
+matches are ordered and inside the haystack (the contract of `captures_iter`, an assumption) -/
+theorem mismatches_noPanic (len : Nat) (ms : List (Nat × Nat)) (h : MatchesOrdered len 0 ms) :
+    ∃ r, mismatches len 0 ms = .ok r ∧ r.length = ms.length + 1 ∧ ∀ p ∈ r, p.1 ≤ p.2 ∧ p.2 ≤ len :=
+  L.mismatches_ok len ms 0 h
+
+example : MatchesOrdered 5 0 [(1, 2), (2, 2), (4, 5)] := by simp [MatchesOrdered]
+
+/-! ### `ltrimstr` / `rtrimstr` (`strip_fix` → `as_sub_str` → `Bytes::slice_ref`), round 2 -/
+
+theorem stripFix_prefix_noPanic (s pre : List UInt8) :
+    ∃ off n, stripFix stripPrefix s pre = .ok (off, n) ∧ off + n ≤ s.length := L.stripFix_prefix_ok s pre
+
+theorem stripFix_suffix_noPanic (s suf : List UInt8) :
+    ∃ off n, stripFix stripSuffix s suf = .ok (off, n) ∧ off + n ≤ s.length := L.stripFix_suffix_ok s suf
+
+/-- `slice_ref` does assert (not vacuous) -/
+theorem sliceRef_out_of_range_panics : sliceRef 3 2 2 = .error .panic := by rfl
+
+/-! ### conversions, `bsearch`, `indices`, round 2 -/
+
+/-- `as_isize` only yields values of `isize` -/
+theorem asIsize_range (n : Num) (i : Int) (hn : ∀ j, n = .int j → IMIN ≤ j ∧ j ≤ IMAX) (h : asIsize n = some i) :
+    IMIN ≤ i ∧ i ≤ IMAX := L.asIsize_range n i hn h
+
+/-- `try_as_i32` (ldexp, scalb, scalbln, jn, yn, halt) only yields values of `i32` -/
+theorem tryAsI32_range (n : Num) (i : Int) (h : tryAsI32 n = some i) : I32MIN ≤ i ∧ i ≤ I32MAX :=
+  L.tryAsI32_range n i h
+
+/-- `tobytes`: a number becomes a byte only in `0..=255` -/
+theorem toByte_range (n : Num) (b : Nat) (h : toByte n = some b) : b ≤ 255 := L.toByte_range n b h
+
+/-- `bsearch`: `-1 - i as isize` cannot overflow for an insertion point `i ≤ len ≤ isize::MAX` -/
+theorem bsearchIdx_noPanic (r : Except Nat Nat) (hr : ∀ i, (r = .ok i ∨ r = .error i) → (i : Int) ≤ IMAX) :
+    ∃ v, bsearchIdx r = .ok v ∧ IMIN ≤ v ∧ v ≤ IMAX ∧
+      (∀ i, r = .ok i → v = i) ∧ (∀ i, r = .error i → v = -1 - (i : Int)) := L.bsearchIdx_ok r hr
+
+/-- … in fact `-1 - (i as isize)` cannot overflow for ANY `usize` (the cast wraps, `-1 - isize::MIN`
+is `isize::MAX`); only the value is wrong beyond `isize::MAX`, which no `Vec` length reaches -/
+theorem bsearchIdx_total (r : Except Nat Nat) (hr : ∀ i, (r = .ok i ∨ r = .error i) → i ≤ U64MAX) :
+    bsearchIdx r ≠ .error .panic := by
+  cases r with
+  | ok i => simp [bsearchIdx]
+  | error i =>
+    have := hr i (Or.inr rfl)
+    unfold bsearchIdx usizeAsIsize isub IMIN IMAX
+    unfold U64MAX at this
+    simp only
+    split <;> (rw [if_pos (by omega)]; simp)
+
+/-- `indices`: no arm reaches `windows(0)` and `i + y.len()` cannot overflow (buffers ≤ `isize::MAX`) -/
+theorem indicesKernel_noPanic (x y : IShape) (starts : List Nat) (hx : L.shapeFits x) (hy : L.shapeFits y)
+    (hs : ∀ i ∈ starts, ∀ n, x = .tstr n → i ≤ n) : indicesKernel x y starts ≠ .error .panic :=
+  L.indicesKernel_noPanic x y starts hx hy hs
+
+/-- `windows(0)` panics (what the two `is_empty()` arms prevent) -/
+theorem windows_zero_panics (len : Nat) : windows len 0 = .error .panic := by rfl
+
+/-! ### token spans and parse-error spans (lexer-to-parser invariant), round 2 -/
+
+/-- lexer-to-parser token span invariant, parametric in the per-token consumers: if every consumer
+leaves a suffix of what it was given (proved for `space`: `space_suffix`; the contract of `token`,
+`str`, `block`, … which are swept, not modelled), then for EVERY text `with_consumed` and
+`load::span` cannot panic, every token span lies inside the text, and the spans are ordered and
+disjoint -/
+theorem lex_token_spans_in_bounds_partial (step : List Char → Option (List Char))
+    (hstep : ∀ s t, step s = some t → t <:+ s) (whole : List Char) (fuel : Nat) :
+    ∃ r, lexSpans step whole fuel whole = .ok r ∧ (∀ sp ∈ r, sp.1 ≤ sp.2 ∧ sp.2 ≤ whole.length) ∧
+      r.Pairwise (fun a b => a.2 ≤ b.1) := by
+  obtain ⟨r, h1, h2, h3, _⟩ := L.lexSpans_ok step hstep whole fuel whole (List.suffix_refl _)
+  exact ⟨r, h1, h2, h3⟩
+
+/-- a consumer that does not return a suffix makes `with_consumed` underflow (the hypothesis is needed) -/
+theorem lex_token_spans_need_suffix :
+    lexSpans (fun _ => some ['a', 'b', 'c']) ['x'] 1 ['x'] = .error .panic := by rfl
+
+example : lexSpans (fun s => match s with | [] => none | _ :: t => some t) ['a', 'b'] 5 ['a', 'b'] = .ok [(0, 1), (1, 2)] := by rfl
+
+/-- `parse_error_spans_in_bounds`, over the model of the error path (`TError` = expected + an optional
+token of the token list; `Token::opt_as_str`; `load::span` in `report_parse`): the span of every parse
+error is the span of a token the lexer produced or the empty slice at the end of the text — inside
+the text whenever the token spans are (previous theorem).
+Not covered: that the parser only reports tokens of the list it was given (true by construction: it
+iterates over `&'t [Token]`), character boundaries (swept). -/
+theorem parse_error_spans_in_bounds_partial (wholeLen : Nat) (toks : List (Nat × Nat))
+    (h : ∀ sp ∈ toks, sp.1 ≤ sp.2 ∧ sp.2 ≤ wholeLen) (pick : Option Nat) (hp : ∀ i, pick = some i → i < toks.length) :
+    ∃ sp, parseErrSpan wholeLen toks pick = .ok sp ∧ sp.1 ≤ sp.2 ∧ sp.2 ≤ wholeLen :=
+  L.parseErrSpan_ok wholeLen toks h pick hp
+
+/-! ### `native_env_shape`, round 2 -/
+
+/-- for EVERY native signature σ, the environment `bind_vars` builds has exactly the shape the
+native's `pop_var`/`pop_fun` calls (newest first) expect: no `panic!()` arm, and the caller's
+environment is what remains -/
+theorem native_env_shape (σ env : List BK) : popAll σ.reverse (bindVars σ env) = .ok env :=
+  L.popAll_bindVars σ env
+
+/-- popping the wrong kind / too much panics (not vacuous): `limit`'s signature is `[var, fn]` -/
+theorem native_env_wrong_order_panics : popAll [.var, .fn] (bindVars [.var, .fn] []) = .error .panic := by rfl
+
+theorem native_env_too_many_pops_panics : popAll [.var, .var] (bindVars [.var] []) = .error .panic := by rfl
 
 end Jaq.C05
